@@ -6,6 +6,7 @@ package main
 
 import (
 	"fmt"
+	"os"
 	"go/types"
 	"math/big"
 	"runtime/debug"
@@ -95,6 +96,8 @@ type Config struct {
 	Witnesses   int
 	RelaxTrunc  bool
 	PatienceMs  int
+	BudgetS     int
+	FreeSched   bool
 	Known       []string
 	Seed        int
 	Verbose     bool
@@ -111,6 +114,7 @@ type Engine struct {
 	active  int
 	wlCond  *sync.Cond
 	stopped bool
+	budgetHit bool
 }
 
 type Machine struct {
@@ -127,6 +131,7 @@ type Machine struct {
 	sharedGlob  map[*ssa.Global]*Value // stdlib globals, initialised once per machine
 	inited      map[*ssa.Package]bool
 	sharedInit  map[*ssa.Package]bool
+	snap        map[*ssa.Global]Value
 	inInit      int
 	steps       int64
 	funcs       map[string]bool
@@ -192,6 +197,34 @@ func (e *Engine) donePath() {
 func (e *Engine) Run() {
 	e.wlCond = sync.NewCond(&e.wlMu)
 	e.wl = [][]int{{}}
+	stopTick := make(chan struct{})
+	defer close(stopTick)
+	go func() {
+		t0 := time.Now()
+		tk := time.NewTicker(10 * time.Second)
+		defer tk.Stop()
+		for {
+			select {
+			case <-stopTick:
+				return
+			case <-tk.C:
+				e.res.mu.Lock()
+				paths := e.res.Paths
+				e.res.mu.Unlock()
+				e.wlMu.Lock()
+				pending := len(e.wl)
+				if e.cfg.BudgetS > 0 && time.Since(t0) > time.Duration(e.cfg.BudgetS)*time.Second {
+					e.stopped = true
+					e.budgetHit = true
+				}
+				e.wlMu.Unlock()
+				e.wlCond.Broadcast()
+				if e.cfg.Verbose {
+					fmt.Fprintf(os.Stderr, "[%s] %.0fs paths=%d pending=%d outcomes=%v\n", e.cfg.Harness, time.Since(t0).Seconds(), paths, pending, e.res.Outcomes)
+				}
+			}
+		}
+	}()
 	var wg sync.WaitGroup
 	for w := 0; w < e.cfg.Workers; w++ {
 		wg.Add(1)
@@ -206,7 +239,7 @@ func (e *Engine) Run() {
 				panic(err)
 			}
 			defer sol.Close()
-			m := &Machine{eng: e, sol: sol, sharedGlob: map[*ssa.Global]*Value{}, sharedInit: map[*ssa.Package]bool{}}
+			m := &Machine{eng: e, sol: sol, sharedGlob: map[*ssa.Global]*Value{}, sharedInit: map[*ssa.Package]bool{}, snap: map[*ssa.Global]Value{}}
 			for {
 				p, ok := e.pop()
 				if !ok {
@@ -227,8 +260,7 @@ func (m *Machine) runPath(prefix []int) {
 	m.vars = m.vars[:0]
 	m.nfresh = 0
 	m.pcLog = m.pcLog[:0]
-	m.globals = map[*ssa.Global]*Value{}
-	m.inited = map[*ssa.Package]bool{}
+	m.restoreGlobals()
 	m.steps = 0
 	m.funcs = map[string]bool{}
 	m.stubs = map[string]int{}
